@@ -519,6 +519,12 @@ func (m *machine) lookup(v *wgen.Var) *Value {
 	if c, ok := m.globals[v]; ok {
 		return c
 	}
+	if v.Kind == wgen.VOverride && v.Init != nil {
+		// default initialiser of an override evaluated on demand
+		val := m.convertTo(m.eval(v.Init), v.T)
+		m.globals[v] = &val
+		return &val
+	}
 	m.fail(fmt.Errorf("wref: unbound variable %s", v.Name))
 	return nil
 }
@@ -718,4 +724,39 @@ func (m *machine) clampIndex(iv Value, n int) int {
 		return n - 1
 	}
 	return int(i)
+}
+
+// ConstEvalWith is ConstEval with override values bound.
+func ConstEvalWith(e wgen.Expr, dst *wgen.Type, decls []*wgen.Var, overrides map[*wgen.Var]Value) (v Value, class ConstClass, why string) {
+	m := &machine{ev: &Events{}, limit: 200000, globals: map[*wgen.Var]*Value{}, private: map[*wgen.Var]*Value{}, constMode: true}
+	m.fr = &frame{vars: map[*wgen.Var]*Value{}}
+	defer func() {
+		if r := recover(); r != nil {
+			if ep, ok := r.(evalPanic); ok {
+				class, why = ConstUnspecified, ep.err.Error()
+				return
+			}
+			panic(r)
+		}
+	}()
+	for k, ov := range overrides {
+		cell := ov
+		m.globals[k] = &cell
+	}
+	for _, d := range decls {
+		dv := m.eval(d.Init)
+		if !d.NoType {
+			dv = m.convertTo(dv, d.T)
+		}
+		cell := dv
+		m.globals[d] = &cell
+	}
+	v = m.eval(e)
+	if dst != nil {
+		v = m.convertTo(v, dst)
+	}
+	if m.ev.DivZero+m.ev.NotRepresentable+m.ev.IntOverflow+m.ev.NonFinite > 0 {
+		return v, ConstUnspecified, "outside the judged domain"
+	}
+	return v, ConstValue, ""
 }
